@@ -62,11 +62,11 @@ def run_tool(cli, args, timeout=60):
 def tool_half(ctx, binp):
     q = ctx.quick
     cli = vlib.build_cli()
-    consts = {"Alphabet": {97, 12354, 44, 34, 32, 10, 13}, "MaxLen": 2 if q else 3,
+    consts = {"Alphabet": {97, 12354, 44, 34, 32, 10, 13, 35, 92, 59, 9} if q else {97, 12354, 44, 34, 32, 10, 13, 35, 92, 9}, "MaxLen": 2 if q else 3,
               "CommentSel": 2}
     res = vlib.tlc("C19-gen-csv", "Gen_Csv", vlib.cfg_text(constants=consts, invariants=["Emit"]))
     cases = vlib.nonempty(vlib.cases_from(res["out"]), "Gen_Csv")
-    ctx.add_tlc(res, f"Gen_Csv: {len(cases)} dictionaries over the CSV-hostile alphabet (comma, quote, space, LF, CR, multi-byte)")
+    ctx.add_tlc(res, f"Gen_Csv: {len(cases)} dictionaries over the CSV-hostile alphabet (comma, quote, space, LF, CR, TAB, #, back slash, semicolon, multi-byte)")
     wd = os.path.join(vlib.WORK, "cli19")
     os.makedirs(wd, exist_ok=True)
     base = {"bias": 7, "cw": 1, "tw": 1, "cng": [{"ng": [97], "w": [1, -1]}], "tng": [], "dict": [], "tags": []}
